@@ -129,7 +129,9 @@ Rejected(scn) == scn.cl.rej # ""
 \* ... except that with an unknown handler configured, "no such endpoint" means: hand it over, as it came.
 \* (unknownpath-handler: no method has that path; restonly-norule-handler: the method exists, the service speaks
 \*  REST only and the method has no HTTP rule, which the code finds out after it has worked on the headers)
-ToUnknown(rej) == rej \in {"unknownpath-handler", "restonly-norule-handler"}
+\* (unknownpath-handler-http1: a gRPC content type over HTTP/1.1 - a reason for a 505 if the path named a
+\*  method, none for withholding an unknown path from the unknown handler)
+ToUnknown(rej) == rej \in {"unknownpath-handler", "restonly-norule-handler", "unknownpath-handler-http1"}
 
 ClientAcceptable(scn) ==
     LET cp == ProtoOf(scn.cl.form) IN
@@ -501,11 +503,13 @@ C08(scn, obs) == RefCompare(scn, obs) \cup PoolSound(scn, obs)
 (* C19: GET is accepted and issued only for side-effect-free methods.      *)
 (***************************************************************************)
 StableCodec(c) == c \in {"proto", "json"}
-ClientIsGet(scn) == scn.cl.form = "connect_get" \/ (scn.cl.form = "rest" /\ MethodInfo(scn.cl.method).restget)
+\* (a REST client reaches a method through whichever binding its request matches: a PUT binding of a
+\*  side-effect-free method is not a GET)
+ClientIsGet(scn) == scn.cl.form = "connect_get" \/ (scn.cl.form = "rest" /\ MethodInfo(scn.cl.method).restget /\ scn.cl.http \in {"", "GET"})
 
 C19(scn, obs) ==
     LET mi == MethodInfo(scn.cl.method) IN
-    (IF scn.cl.form = "connect_get" /\ ~mi.nse /\ scn.cl.rej \in {"", "rpc-get-notnse"} THEN
+    (IF scn.cl.form = "connect_get" /\ ~mi.nse /\ scn.cl.rej \in {"", "rpc-get-notnse", "rpc-get-idem"} THEN
         (IF obs.ret.n = 0 THEN {} ELSE {"C19.GetRefusedForMethodWithSideEffects"})
         \cup (IF obs.cl.status = 405 THEN {} ELSE {"C19.Refusal405"})
         \cup (IF "POST" \in Range(obs.cl.allow) THEN {} ELSE {"C19.AllowNamesPost"})
